@@ -9,7 +9,10 @@ Decides the code-shape half of the property:
  (G2) Automerge::missing_deps_from reports a hash as missing only when it is neither applied (`has_change` false) nor held
       (`queued_changes.get` is None), and follows the dependencies of every held change it meets;
  (G3) ReadDoc::get_missing_deps starts that search from the hashes of all queued changes chained with the given heads;
- (G4) only changes returned by pop_topo_sorted_ready are handed to BatchApply (provenance of BatchApply::push's argument).
+ (G4) only changes returned by pop_topo_sorted_ready are handed to BatchApply (provenance of BatchApply::push's argument);
+ (G5) the queue's two indexes (`hashes`, `incoming_actor_seqs`: what has_hash / has_actor_seq answer from) move with the queue:
+      every ChangeQueue method that adds to or removes from `changes` mutates both indexes too (a stale hash makes a re-delivered
+      change look "already queued" forever).
 Not decided: that the final state is independent of the arrival order (C01), exactness of the reported set as a value.
 """
 from .. import cfg, util, rules, facts
@@ -46,6 +49,7 @@ def run(ctx):
     ctx.rule("G1", "edge dominance in Kahn's algorithm: increments under !has_change(dep); releases under count == 0")
     ctx.rule("G2", "missing.insert(hash) is dominated by has_change(hash)==false and queued.get(hash)==None; the Some arm extends the stack with the change's deps")
     ctx.rule("G3", "provenance of missing_deps_from's argument in get_missing_deps: queue hashes chained with the heads parameter")
+    ctx.rule("G5", "sibling agreement: ChangeQueue methods mutating `changes` mutate `hashes` and `incoming_actor_seqs` as well")
     ctx.rule("G4", "provenance of BatchApply::push's argument: pop_topo_sorted_ready only")
     f = ctx.facts()
     # ---------------- G1
@@ -165,3 +169,22 @@ def run(ctx):
             if norm_fn(t.get("res") or t.get("fn")) == "automerge::op_set2::change::batch::BatchApply::push":
                 others.add(norm_fn(p))
     ctx.ob("G4", "BatchApply::push|only the admission function", not others, "", "other callers: %s" % sorted(others))
+    # ---------------- G5
+    from . import C28
+    CQ = "automerge::change_queue::ChangeQueue"
+    n5 = 0
+    for p, r in sorted(f.fns.items()):
+        if r["ckey"] != ("automerge", "lib") or r.get("container") != CQ or "{closure" in p:
+            continue
+        b = cfg.body(r)
+        if not b.local_ty(1).startswith("&mut"):
+            continue
+        flds = C28.mutated_fields(f, p, 1)
+        if "changes" not in flds:
+            continue
+        n5 += 1
+        ctx.analysed_fns.add(p)
+        missing = {"hashes", "incoming_actor_seqs"} - flds
+        ctx.ob("G5", "%s|indexes updated with the queue" % norm_fn(p).split("::")[-1], not missing, r["sp"],
+               "mutates %s" % sorted(flds) if not missing else "changes the queued changes but not %s: has_hash / has_actor_seq answer from a stale index" % sorted(missing))
+    ctx.floor("ChangeQueue methods mutating `changes`", n5, 3)
